@@ -10,8 +10,9 @@
      full     C19_no_overlap_answers_current / C19_no_overlap_linearizable
                                                 small-step model, one shared handle, any number of threads, every
                                                 interleaving in which no read overlaps a write
-     refuted  C19_offset_refuted (pre-F16 key), C19_second_handle_refuted, C19_stale_after_write_refuted,
-              C19_late_store_refuted, C19_truncated_cached_refuted          (witnesses replayed on the real code) *)
+     refuted  C19_offset_refuted (pre-F16 key; fixed), C19_truncated_cached_refuted (pre-F22 store rule; fixed),
+              C19_second_handle_refuted, C19_stale_after_write_refuted, C19_late_store_refuted
+              (witnesses replayed on the real code) *)
 From Coq Require Import List NArith ZArith Bool Arith.
 From Coq.Strings Require Import Byte.
 Import ListNotations.
@@ -35,8 +36,6 @@ Theorem C19_sequential_single_handle :
     (* ... requests (in D) with the same cache key get the same answer from it *)
     (forall s g q1 q2, D q1 = true -> D q2 = true -> key q1 = key q2 -> is_exist q1 = is_exist q2 ->
                        snd (inner_step s g (Read q1)) = snd (inner_step s g (Read q2))) ->
-    (* ... and a lookup that returns an error has delivered nothing *)
-    (forall s g q l e, D q = true -> snd (inner_step s g (Read q)) = AList l (Some e) -> l = []) ->
     forall (s : istate) (g : gid) (rs : list (@req wreq query)),
       (forall q, In (Read q) rs -> D q = true) ->
       (* every answer through the memoizer = the wrapped store's answer at that moment; same final inner state *)
@@ -45,8 +44,8 @@ Theorem C19_sequential_single_handle :
       m_inner (fst (memo_run istate gid wreq query elem err K is_exist key K_eqb inner_step (init_m s) (HOpen g :: map (HDo 0) rs)))
       = r_inner (fst (ref_run istate gid wreq query elem err inner_step (init_r s) (HOpen g :: map (HDo 0) rs))).
 Proof.
-  intros istate gid wreq query elem err K is_exist key K_eqb inner_step D HK Hp Hk He s g rs HD.
-  exact (sequential_single_handle istate gid wreq query elem err K is_exist key K_eqb HK inner_step D Hp Hk He s g rs HD).
+  intros istate gid wreq query elem err K is_exist key K_eqb inner_step D HK Hp Hk s g rs HD.
+  exact (sequential_single_handle istate gid wreq query elem err K is_exist key K_eqb HK inner_step D Hp Hk s g rs HD).
 Qed.
 Print Assumptions C19_sequential_single_handle.
 
@@ -57,14 +56,13 @@ Theorem C19_offset :
          (inner_step : istate -> gid -> @req wreq (cquery arg) -> istate * @answer elem err),
     (forall a b, arg_eqb a b = true <-> a = b) ->
     (forall s g q, fst (inner_step s g (Read q)) = s) ->
-    (forall s g q l e, lo_wf (q_lo q) = true -> snd (inner_step s g (Read q)) = AList l (Some e) -> l = []) ->
     forall s g rs, (forall q, In (Read q) rs -> lo_wf (q_lo q) = true) ->
       snd (memo_run istate gid wreq (cquery arg) elem err (ckey arg) cq_is_exist key_v1 (ckey_eqb arg_eqb) inner_step
              (init_m s) (HOpen g :: map (HDo 0) rs))
       = snd (ref_run istate gid wreq (cquery arg) elem err inner_step (init_r s) (HOpen g :: map (HDo 0) rs)).
 Proof.
-  intros istate gid wreq arg elem err arg_eqb inner_step HA Hp He s g rs HD.
-  exact (proj1 (seq_v1 istate gid wreq arg elem err arg_eqb HA inner_step Hp He s g rs HD)).
+  intros istate gid wreq arg elem err arg_eqb inner_step HA Hp s g rs HD.
+  exact (proj1 (seq_v1 istate gid wreq arg elem err arg_eqb HA inner_step Hp s g rs HD)).
 Qed.
 Print Assumptions C19_offset.
 
@@ -77,7 +75,6 @@ Theorem C19_sequential_single_handle_partial :
     (* the wrapped store pages only when MaxElements > 0 *)
     (forall s g q, (lo_max (q_lo q) <= 0)%Z ->
                    snd (inner_step s g (Read q)) = snd (inner_step s g (Read (with_offset arg q 0)))) ->
-    (forall s g q l e, D0 arg q = true -> snd (inner_step s g (Read q)) = AList l (Some e) -> l = []) ->
     forall s g rs,
       (forall q, In (Read q) rs ->
                  (lo_wf (q_lo q) && (Z.eqb (lo_offset (q_lo q)) 0 || Z.leb (lo_max (q_lo q)) 0)) = true) ->
@@ -85,8 +82,8 @@ Theorem C19_sequential_single_handle_partial :
              (init_m s) (HOpen g :: map (HDo 0) rs))
       = snd (ref_run istate gid wreq (cquery arg) elem err inner_step (init_r s) (HOpen g :: map (HDo 0) rs)).
 Proof.
-  intros istate gid wreq arg elem err arg_eqb inner_step HA Hp Hpg He s g rs HD.
-  exact (proj1 (seq_v0 istate gid wreq arg elem err arg_eqb HA inner_step Hp Hpg He s g rs HD)).
+  intros istate gid wreq arg elem err arg_eqb inner_step HA Hp Hpg s g rs HD.
+  exact (proj1 (seq_v0 istate gid wreq arg elem err arg_eqb HA inner_step Hp Hpg s g rs HD)).
 Qed.
 Print Assumptions C19_sequential_single_handle_partial.
 
@@ -109,15 +106,14 @@ Theorem C19_read_only_any_handles :
     (forall s g q, fst (inner_step s g (Read q)) = s) ->
     (forall s g q1 q2, D q1 = true -> D q2 = true -> key q1 = key q2 -> is_exist q1 = is_exist q2 ->
                        snd (inner_step s g (Read q1)) = snd (inner_step s g (Read q2))) ->
-    (forall s g q l e, D q = true -> snd (inner_step s g (Read q)) = AList l (Some e) -> l = []) ->
     forall (s : istate) (ops : list (@hop gid wreq query)),
       Forall (fun o => match o with HDo _ (Write _) => False | _ => True end) ops ->
       Forall (fun o => match o with HDo _ (Read q) => D q = true | _ => True end) ops ->
       snd (memo_run istate gid wreq query elem err K is_exist key K_eqb inner_step (init_m s) ops)
       = snd (ref_run istate gid wreq query elem err inner_step (init_r s) ops).
 Proof.
-  intros istate gid wreq query elem err K is_exist key K_eqb inner_step D HK Hp Hk He s ops H1 H2.
-  pose proof (reads_only_run istate gid wreq query elem err K is_exist key K_eqb HK inner_step D Hp Hk He ops s []
+  intros istate gid wreq query elem err K is_exist key K_eqb inner_step D HK Hp Hk s ops H1 H2.
+  pose proof (reads_only_run istate gid wreq query elem err K is_exist key K_eqb HK inner_step D Hp Hk ops s []
                 (fun h Hin => match Hin with end) H1 H2) as R.
   unfold init_m, init_r. cbn [map] in R.
   destruct (memo_run istate gid wreq query elem err K is_exist key K_eqb inner_step (mkM s []) ops).
@@ -138,7 +134,6 @@ Theorem C19_one_handle_per_graph :
     (forall s g q, fst (inner_step s g (Read q)) = s) ->
     (forall s g q1 q2, D q1 = true -> D q2 = true -> key q1 = key q2 -> is_exist q1 = is_exist q2 ->
                        snd (inner_step s g (Read q1)) = snd (inner_step s g (Read q2))) ->
-    (forall s g q l e, D q = true -> snd (inner_step s g (Read q)) = AList l (Some e) -> l = []) ->
     (forall s g w g' q, g <> g' -> snd (inner_step (fst (inner_step s g (Write w))) g' (Read q))
                                    = snd (inner_step s g' (Read q))) ->
     forall (s : istate) (ops : list (@hop gid wreq query)),
@@ -147,8 +142,8 @@ Theorem C19_one_handle_per_graph :
       snd (memo_run istate gid wreq query elem err K is_exist key K_eqb inner_step (init_m s) ops)
       = snd (ref_run istate gid wreq query elem err inner_step (init_r s) ops).
 Proof.
-  intros istate gid wreq query elem err K is_exist key K_eqb inner_step D HK Hp Hk He Hf s ops H1 H2.
-  pose proof (distinct_graphs_run istate gid wreq query elem err K is_exist key K_eqb HK inner_step D Hp Hk He Hf ops s []
+  intros istate gid wreq query elem err K is_exist key K_eqb inner_step D HK Hp Hk Hf s ops H1 H2.
+  pose proof (distinct_graphs_run istate gid wreq query elem err K is_exist key K_eqb HK inner_step D Hp Hk Hf ops s []
                 (fun h Hin => match Hin with end) H1 H2) as R.
   unfold init_m, init_r. cbn [map] in R.
   destruct (memo_run istate gid wreq query elem err K is_exist key K_eqb inner_step (mkM s []) ops).
@@ -170,7 +165,6 @@ Theorem C19_no_overlap_answers_current :
     (forall s g q, fst (inner_step s g (Read q)) = s) ->
     (forall s g q1 q2, D q1 = true -> D q2 = true -> key q1 = key q2 -> is_exist q1 = is_exist q2 ->
                        snd (inner_step s g (Read q1)) = snd (inner_step s g (Read q2))) ->
-    (forall s g q l e, D q = true -> snd (inner_step s g (Read q)) = AList l (Some e) -> l = []) ->
     forall (s : istate) (g : gid) (progs : list (list (@req wreq query))) (sched : list nat) stf lg,
       (forall p q, In p progs -> In (Read q) p -> D q = true) ->
       run_log istate gid wreq query elem err K is_exist key K_eqb inner_step true
@@ -178,9 +172,9 @@ Theorem C19_no_overlap_answers_current :
       (* every completed request returned what the wrapped store answers in the state of that moment *)
       forall i rq a ref, In (i, rq, a, ref) lg -> a = ref.
 Proof.
-  intros istate gid wreq query elem err K is_exist key K_eqb inner_step D HK Hp Hk He s g progs sched stf lg HD HR i rq a ref Hin.
+  intros istate gid wreq query elem err K is_exist key K_eqb inner_step D HK Hp Hk s g progs sched stf lg HD HR i rq a ref Hin.
   pose proof (Inv_init istate gid wreq query elem err K is_exist key K_eqb inner_step D s g progs HD) as HI.
-  destruct (excl_answers_current istate gid wreq query elem err K is_exist key K_eqb HK inner_step D Hp Hk He
+  destruct (excl_answers_current istate gid wreq query elem err K is_exist key K_eqb HK inner_step D Hp Hk
               sched g _ stf lg HI HR) as [_ H].
   exact (H (i, rq, a, ref) Hin).
 Qed.
@@ -195,7 +189,6 @@ Theorem C19_no_overlap_linearizable :
     (forall s g q, fst (inner_step s g (Read q)) = s) ->
     (forall s g q1 q2, D q1 = true -> D q2 = true -> key q1 = key q2 -> is_exist q1 = is_exist q2 ->
                        snd (inner_step s g (Read q1)) = snd (inner_step s g (Read q2))) ->
-    (forall s g q l e, D q = true -> snd (inner_step s g (Read q)) = AList l (Some e) -> l = []) ->
     forall (s : istate) (g : gid) (progs : list (list (@req wreq query))) (sched : list nat) stf lg,
       (forall p q, In p progs -> In (Read q) p -> D q = true) ->
       run_log istate gid wreq query elem err K is_exist key K_eqb inner_step true
@@ -205,23 +198,22 @@ Theorem C19_no_overlap_linearizable :
               (map (fun e : nat * @req wreq query * @answer elem err * @answer elem err => HDo 0 (snd (fst (fst e)))) lg)
       = (mkR (g_inner stf) [g], map (fun e : nat * @req wreq query * @answer elem err * @answer elem err => snd (fst e)) lg).
 Proof.
-  intros istate gid wreq query elem err K is_exist key K_eqb inner_step D HK Hp Hk He s g progs sched stf lg HD HR.
+  intros istate gid wreq query elem err K is_exist key K_eqb inner_step D HK Hp Hk s g progs sched stf lg HD HR.
   pose proof (Inv_init istate gid wreq query elem err K is_exist key K_eqb inner_step D s g progs HD) as HI.
-  exact (excl_linearizable istate gid wreq query elem err K is_exist key K_eqb HK inner_step D Hp Hk He
+  exact (excl_linearizable istate gid wreq query elem err K is_exist key K_eqb HK inner_step D Hp Hk
            sched g _ stf lg HI HR).
 Qed.
 Print Assumptions C19_no_overlap_linearizable.
 
 (* the hypotheses of the theorems above are satisfiable: the tiny wrapped store (numbered triples, paging) has pure
-   reads and never returns an error together with elements; and a restricted schedule with overlapping READS exists *)
+   reads; and a restricted schedule with overlapping READS exists *)
 Example C19_hypotheses_example :
   (forall s g q, fst (tiny_step s g (Read q)) = s) /\
-  (forall s g q l e, snd (tiny_step s g (Read q)) = AList l (Some e) -> l = []) /\
   exists stf lg,
     tlog key_v1 true (tstate [1%N] 1 [(0, [wr_add [2%N]]); (0, [rd_list 0 0; rd_list 0 0]); (0, [rd_list 0 0])])
          [1; 2; 1; 2; 2; 1; 0; 0; 1; 1; 1] = Some (stf, lg) /\ length lg = 4.
 Proof.
-  split; [exact tiny_reads_pure|]. split; [exact tiny_err_empty|].
+  split; [exact tiny_reads_pure|].
   eexists. eexists. split; [vm_compute; reflexivity|reflexivity].
 Qed.
 
@@ -284,12 +276,18 @@ Example C19_refuting_schedules_overlap_example :
   tlog key_v1 true (tstate [1%N] 1 [(0, [wr_add [2%N]]); (0, [rd_list 0 0; rd_list 0 0])]) [1; 1; 0; 0; 1; 1] = None.
 Proof. vm_compute. split; reflexivity. Qed.
 
-(* a wrapped store that fails after delivering one element: the truncated list is cached and the next lookup returns
-   it WITHOUT an error although the wrapped store (healthy again) would deliver [1;2;3] *)
+(* BEFORE fix F22 (repo 441b3d7): a wrapped store that fails after delivering one element - the truncated list was cached
+   and the next lookup returned it WITHOUT an error although the wrapped store (healthy again) would deliver [1;2;3] *)
 Theorem C19_truncated_cached_refuted :
-  exists st,
-    fm_run (init_m ([1;2;3]%N, true)) [HOpen 0%N; HDo 0 (rd_list 0 0); HDo 0 (rd_list 0 0)]
-    = (st, [AAck None; AList [1%N] (Some 1%N); AList [1%N] None]) /\
-    snd (flaky_step (m_inner st) 0%N (rd_list 0 0)) = AList [1;2;3]%N None.
-Proof. eexists. vm_compute. split; reflexivity. Qed.
+  exists s h,
+    fm_run_f22 ([1;2;3]%N, true) (fresh 0%N) [rd_list 0 0; rd_list 0 0]
+    = (s, h, [AList [1%N] (Some 1%N); AList [1%N] None]) /\
+    snd (flaky_step s 0%N (rd_list 0 0)) = AList [1;2;3]%N None.
+Proof. eexists. eexists. vm_compute. split; reflexivity. Qed.
 Print Assumptions C19_truncated_cached_refuted.
+
+(* AFTER the fix the same history gets the error and then the complete answer *)
+Example C19_truncated_not_cached_example :
+  snd (fm_run (init_m ([1;2;3]%N, true)) [HOpen 0%N; HDo 0 (rd_list 0 0); HDo 0 (rd_list 0 0)])
+  = [AAck None; AList [1%N] (Some 1%N); AList [1;2;3]%N None].
+Proof. vm_compute. reflexivity. Qed.
